@@ -125,7 +125,14 @@ def gen_xprog(rng, profile):
         cands = [i for i in range(items) if free or grps[i] == g]
         return rng.choice(cands) if cands else None
 
+    played = set()          # 'groups': every body is instantiated at most once, so that "the latest instance of body b"
+                            # (pause/resume targets) never depends on which clock thread created its instance first
+
     def play_act(j, t):
+        if profile == 'groups':
+            if t in played:
+                return None
+            played.add(t)
         if free:
             return ['F', t] if rng.random() < 0.3 else ['P', t, rng.choice(clocks + (['A'] if rng.random() < 0.2 else []))]
         if grp[t] == grp[j]:
@@ -501,7 +508,7 @@ def gen_life_prog(rng):
             body.append(['seed', rng.choice(SEED_POOL)])
         else:
             t = rng.choice([x for x in range(1, nb) if x != j] or [1])
-            body.append([rng.choice(['pause', 'resume', 'stop', 'play2']), t])
+            body.append([rng.choice(['pause', 'resume', 'play2'] if tempo else ['pause', 'resume', 'stop', 'play2']), t])
     bodies = []
     root = [['seed', rng.choice(SEED_POOL)]] + [['P' if tempo else 'F', j] + ([cl] if tempo else []) for j in range(1, nb)]
     if not tempo:
@@ -509,7 +516,10 @@ def gen_life_prog(rng):
     for _ in range(rng.randint(5, 12)):
         r = rng.random()
         if r < 0.3:
-            root.append([rng.choice(['stop', 'reset', 'replay', 'replay', 'play2', 'pause', 'resume']), rng.randint(1, nb - 1)])
+            # reset() and stop() set the routine's _clock to SystemClock even while it is still queued on a TempoClock; a later
+            # Condition.signal then re-schedules it on SystemClock (another thread): on a TempoClock only replay (reset + play) is used
+            root.append([rng.choice(['stop', 'replay', 'replay', 'play2', 'pause', 'resume'] if tempo else
+                                    ['stop', 'reset', 'replay', 'replay', 'play2', 'pause', 'resume']), rng.randint(1, nb - 1)])
         else:
             common(root, 0)
     bodies.append(root)
